@@ -148,10 +148,7 @@ def _np_diag(fr, args, kwargs):
 
 @model("numpy.delete")
 def _np_delete(fr, args, kwargs):
-    m = fr.I.models.get("numpy.delete:enum")
-    if m is None:
-        raise Unsupported("np.delete")
-    return m(fr, args, kwargs)
+    return N.delete(args[0], args[1], kwargs.get("axis", args[2] if len(args) > 2 else None))
 
 
 @model("numpy.c_[]")
